@@ -136,6 +136,7 @@ func execSMServer(toks []string) string {
 				}
 			}
 		}()
+		allKept := &keeper{machine: machine}
 		for i, l := range ls {
 			if i >= len(ss) {
 				break
@@ -143,10 +144,15 @@ func execSMServer(toks []string) string {
 			log.mu.Lock()
 			log.evs = nil
 			log.mu.Unlock()
-			outs = append(outs, runSMConn(machine, log, l, ss[i]))
+			outs = append(outs, runSMConnK(machine, log, l, ss[i], allKept))
 		}
 		close(stop)
 		res := strings.Join(outs, " || ")
+		// what the application kept from the earlier connections (dispatched messages, messages
+		// handed out with error reports) is as it was, after all the later connections' reads
+		if n := allKept.changed(); n > 0 {
+			res += fmt.Sprintf(" KEPT:changed=%d", n)
+		}
 		hmu.Lock()
 		for i, h := range done {
 			if now := showMetaGo(h.c); now != h.meta {
@@ -161,6 +167,12 @@ func execSMServer(toks []string) string {
 }
 
 func runSMConn(machine *sm.StateMachine, log *evLog, loc, segs string) string {
+	return runSMConnK(machine, log, loc, segs, nil)
+}
+
+// runSMConnK: with a keeper of the caller's (one for all connections of a line) the verdict on
+// what was kept is the caller's too
+func runSMConnK(machine *sm.StateMachine, log *evLog, loc, segs string, shared *keeper) string {
 	mc := newMemConn()
 	if s, ok := localMenu[loc]; ok {
 		mc.local = memAddr{"tcp", s}
@@ -182,7 +194,10 @@ func runSMConn(machine *sm.StateMachine, log *evLog, loc, segs string) string {
 		cmu.Unlock()
 	}
 	wrapped := &closeSpy{memConn: mc, onClose: origClose}
-	kp := &keeper{machine: machine}
+	kp := shared
+	if kp == nil {
+		kp = &keeper{machine: machine}
+	}
 	if _, err := diam.NewConn(wrapped, "mem", kp, dict.Default); err != nil {
 		return "err"
 	}
@@ -208,7 +223,7 @@ func runSMConn(machine *sm.StateMachine, log *evLog, loc, segs string) string {
 	waitFor(mc.isClosed, time.Second)
 	// messages the application kept (dispatched ones, reported ones) are as they were
 	kept := ""
-	if n := kp.changed(); n > 0 {
+	if n := kp.changed(); n > 0 && shared == nil {
 		kept = fmt.Sprintf(" KEPT:changed=%d", n)
 	}
 	log.mu.Lock()
@@ -442,7 +457,9 @@ func dwrBytes(r *RNG, mode int) []byte {
 func histMessage(r *RNG, serial *uint32) []byte {
 	*serial++
 	s := *serial
-	switch r.Intn(12) {
+	switch r.Intn(13) {
+	case 12: // a complete message with an AVP that cannot be decoded (an IPv4 Host-IP-Address of 3 bytes)
+		return simpleMsgRaw(272, 0x80, 4, s, s, append(rawAVP(263, 0x40, 0, 12, []byte("sess"), true), rawAVP(257, 0x40, 0, 13, []byte{0, 1, 10, 0, 0}, true)...))
 	case 0, 1, 2:
 		return goodCER(r).bytes()
 	case 3, 4:
@@ -460,6 +477,10 @@ func histMessage(r *RNG, serial *uint32) []byte {
 	default: // unknown application, command resolved through base
 		return simpleMsg(280, 0x80, 777, s, s, diam.NewAVP(264, 0x40, 0, datatype.DiameterIdentity("p")), diam.NewAVP(296, 0x40, 0, datatype.DiameterIdentity("q")))
 	}
+}
+
+func simpleMsgRaw(cmd uint32, flags uint8, app, hbh, e2e uint32, body []byte) []byte {
+	return append(rawHeader(20+len(body), flags, cmd, app, hbh, e2e), body...)
 }
 
 func genRegs(r *RNG) string {
